@@ -435,7 +435,7 @@ def _arm_consts(fn, blocks):
                     sig["mask"].add(r[1])
                 if op == "BitAnd" and l[0] == "c" and l[1] > 0xFFFF:
                     sig["mask"].add(l[1])
-            if rv["k"] == "Aggregate" and rv.get("adt", "").endswith("ops::Range") and len(rv["ops"]) == 2:
+            if rv["k"] == "Aggregate" and rv.get("adt", "").endswith(("ops::Range", "ops::Range::Range")) and len(rv["ops"]) == 2:
                 # half-open o..o+w covers the same bytes as o..=o+(w-1)
                 hi = fn.term_of_operand(rv["ops"][1], b)
                 if tmatch(hi, ("bin", "Add", "_", ("c", "_"))) is not None and isinstance(hi[3][1], int) and hi[3][1] <= 8:
@@ -523,7 +523,7 @@ def ft4(F, R):
                                 other_ok = "new_value" in tstr(v)
                             elif v[0] == "c":
                                 got[lab[1]] = v[1]
-        R.require(got == want and other_ok, fn, arm + ":special-values", "%s special-value table is %s, expected %s (and pass-through otherwise)" % (arm, {hex(k): hex(v) for k, v in got.items()}, {hex(k): hex(v) for k, v in want.items()}), fn.loc(min(arms[arm])))
+        R.require(got == want and other_ok, fn, arm + ":special-values", "%s special-value table is %s, expected %s (and pass-through otherwise)" % (arm, {hex(k): hex(v) for k, v in got.items()}, {hex(k): hex(v) for k, v in want.items()}), fn.loc(min(arms[arm])) if arms[arm] else fn.loc(0))
 
 
 @rule("FT5", ["C03", "C04", "C05", "C16"], floor=2,
@@ -749,7 +749,24 @@ def ft9(F, R):
     empt = [c for c in calls if c[4] == "EMPTY"]
     eof = [c for c in calls if c[4] == "EOF"]
     R.require(len(eof) == 1 and strip_refs(eof[0][2])[:2] == ("arg", 3), fn, "terminate-head", "the chain head `cluster` must be marked END_OF_FILE (got %s)" % [tstr(c[2]) for c in eof], fn.loc(eof[0][0]) if eof else None)
-    R.require(len(empt) >= 2, fn, "frees", "expected the two freeing sites (Ok(n) arm, EndOfFile arm)", fn.loc(0))
+    # every cluster the walk looks up is freed: from either continuing outcome of next_cluster(cursor) (Ok, EndOfFile) no
+    # reassignment of the cursor, no further trip and no Ok return is reachable without passing update_fat(cursor, EMPTY)
+    ncs = [(b2, t2) for b2, t2 in fn.calls() if call_matches(t2, ("FatVolume::next_cluster",)) and any(b2 in body for (h, body, backs) in fn.loops())]
+    okf = len(empt) >= 1 and len(ncs) == 1
+    if okf:
+        nb, nt = ncs[0]
+        cur = strip_refs(fn.term_of_operand(nt["args"][2], nb))
+        loop = [(h, body, backs) for (h, body, backs) in fn.loops() if nb in body][0]
+        outcome = [(gb, gi) for (gb, gi, g) in all_guards(fn) if g.kind == "variant" and g.variant in ("Ok", "EndOfFile") and has_sub(g.term, lambda q: q[0] == "call" and q[1] and path_matches(q[1], "FatVolume::next_cluster") and q[3] == nb)]
+        stops = {loop[0]} | {x[0] for x in ok_returns(fn)}
+        if cur[0] == "var":
+            stops |= {d[1] for d in fn.defs().get(cur[1], []) if d[1] in loop[1]}
+        okf = len(outcome) >= 2
+        for (gb, gi) in outcome:
+            free = fn.reach([fn.succ(gb)[gi][0]], cut_blocks=[c[0] for c in empt])
+            if free & stops:
+                okf = False
+    R.require(okf, fn, "frees", "a cluster looked up by the truncation walk can be left allocated: after next_cluster(cursor) answered Ok / EndOfFile the walk moves on (or finishes) without update_fat(cursor, EMPTY)", fn.loc(0))
     for (b, t, cl, val, kind) in empt:
         c = strip_refs(cl)
         # the cursor is the var fed to next_cluster in the loop
@@ -1177,29 +1194,30 @@ def is3(F, R):
 # ---------------------------------------------------------------------------------------
 
 
-@rule("DK1", ["C05"], floor=2,
+@rule("DK1", ["C05"], floor=3,
       doc="VolumeManager::write: a failing alloc_cluster on the extend path leads to an Err return (DiskFull), never to Ok; bytes written by earlier iterations stay accounted (no rollback of length/offset)")
 def dk1(F, R):
+    from .ev import failure_edges
     fn = F.fn(VM + "::write")
     sites = [(b, t) for b, t in fn.calls() if call_matches(t, ("FatVolume::alloc_cluster",))]
-    n = 0
+    ext = []
     for b, t in sites:
-        dest = t["dest"]["l"]
-        # is_err() consumer
-        for b2, t2 in fn.calls():
-            if (callee_of(t2) or "").endswith("Result::is_err") and has_sub(fn.term_of_operand(t2["args"][0], b2), lambda q: q[0] == "call" and q[3] == b):
-                n += 1
-                for (gb, gi, g) in all_guards(fn):
-                    if g.kind == "bool" and g.term[0] == "call" and g.term[1].endswith("Result::is_err") and g.term[3] == b2 and g.truth is True:
-                        tgt = fn.succ(gb)[gi][0]
-                        reach = fn.reach([tgt])
-                        oks = [x for x in ok_returns(fn) if x[0] in reach]
-                        errs = [x for x in err_returns(fn) if x[0] in reach and x[2] == "DiskFull"]
-                        R.require(not oks and errs, fn, "alloc-fail->DiskFull", "a failed extension allocation can reach an Ok return or does not report DiskFull", fn.loc(gb))
-    R.require(n >= 1 or len(sites) >= 2, fn, "extend-site", "extend-path alloc_cluster with error check not found", fn.loc(0))
+        prev = strip_refs(fn.term_of_operand(t["args"][2], b))
+        if prev[0] == "agg" and prev[2] and prev[2].endswith("Option::Some"):
+            ext.append((b, t))
+    R.require(len(ext) >= 1, fn, "extend-site", "extend-path alloc_cluster(.., Some(tail), ..) not found in write()", fn.loc(0))
+    for b, t in ext:
+        fe = failure_edges(fn, b)
+        R.require(bool(fe), fn, "alloc-fail-tested", "the result of the extension allocation is not tested", fn.loc(b))
+        oks = errs = 0
+        for (gb, gi) in fe:
+            reach = fn.reach([fn.succ(gb)[gi][0]])
+            oks += len([x for x in ok_returns(fn) if x[0] in reach])
+            errs += len([x for x in err_returns(fn) if x[0] in reach]) + len([1 for bb, tt in fn.calls() if bb in reach and (callee_of(tt) or "").endswith("FromResidual::from_residual")])
+        R.require(fe and not oks and errs, fn, "alloc-fail->DiskFull", "a failed extension allocation can reach an Ok return (a silent short write: the caller is told the whole buffer was stored) or is not reported", fn.loc(b))
 
 
-@rule("TS1", ["C02"], floor=3,
+@rule("TS1", ["C02"], floor=6,
       doc="creation time is written only at creation (DirEntry::new, make_dir literals, parse); mtime is taken from the TimeSource only in write() and the truncate arm of open_file_in_dir")
 def ts1(F, R):
     allowed_c = {"filesystem::directory::DirEntry::new", "fat::ondiskdirentry::OnDiskDirEntry::get_entry", FATVOL + "::make_dir"}
@@ -1233,6 +1251,21 @@ def ts1(F, R):
                 v = fn.term_of_rvalue(s["rv"], b)
                 okm = has_sub(v, lambda q: q[0] == "call" and q[1] and q[1].endswith("TimeSource::get_timestamp"))
     R.require(okm, fn, "mtime=clock", "write() must set mtime from time_source.get_timestamp()", fn.loc(0))
+    # ... on every successful write, not only the first one through the handle: no Ok return without passing the stamp
+    def mtime_stores(f):
+        return [b for b, i, s in f.stmts() if s["k"] == "Assign" and [e[2] for e in f.canon_place(s["p"])["proj"] if e[0] == "field"][-1:] == ["mtime"]]
+    st = mtime_stores(fn)
+    free = fn.reach([0], cut_blocks=st)
+    R.require(bool(st) and not any(x[0] in free for x in ok_returns(fn)), fn, "mtime-every-write", "write() can return Ok without stamping the modification time (e.g. only on the first write through a handle): the flushed entry carries the time of an earlier write", fn.loc(st[0]) if st else fn.loc(0))
+    # the truncating open stamps before it persists the entry (the handle is not dirty afterwards, so a later stamp is never written)
+    fo = F.fn(VM + "::open_file_in_dir")
+    st = mtime_stores(fo)
+    ws = [b for b, t in fo.calls() if call_matches(t, ("FatVolume::write_entry_to_disk",))]
+    R.require(bool(st) and bool(ws), fo, "truncate-stamp-sites", "open_file_in_dir must stamp mtime and persist the entry in its truncating arm", fo.loc(0))
+    for w in ws:
+        before = w not in fo.reach([0], cut_blocks=st)
+        after = any(x in fo.reach_after(w) for x in st)
+        R.require(before and not after, fo, "truncate-stamp-before-persist", "the truncating open writes the directory entry %s the new modification time is stored in it: the medium keeps the old mtime (nothing marks the handle dirty)" % ("before" if not before else "and only afterwards"), fo.loc(w))
 
 
 # ---------------------------------------------------------------------------------------
